@@ -444,6 +444,7 @@ spif_bool_t
 spif_str_clear(spif_str_t self, spif_char_t c)
 {
     ASSERT_RVAL(!SPIF_STR_ISNULL(self), FALSE);
+    REQUIRE_RVAL(self->s != (spif_charptr_t) NULL, TRUE);
     memset(self->s, c, self->size);
     self->s[self->len] = 0;
     return TRUE;
@@ -475,6 +476,7 @@ spif_str_downcase(spif_str_t self)
     spif_charptr_t tmp;
 
     ASSERT_RVAL(!SPIF_STR_ISNULL(self), FALSE);
+    REQUIRE_RVAL(self->s != (spif_charptr_t) NULL, TRUE);
     for (tmp = self->s; *tmp; tmp++) {
         *tmp = tolower(*tmp);
     }
@@ -850,6 +852,7 @@ spif_str_upcase(spif_str_t self)
     spif_charptr_t tmp;
 
     ASSERT_RVAL(!SPIF_STR_ISNULL(self), FALSE);
+    REQUIRE_RVAL(self->s != (spif_charptr_t) NULL, TRUE);
     for (tmp = self->s; *tmp; tmp++) {
         *tmp = toupper(*tmp);
     }
